@@ -767,3 +767,116 @@ Example C07_default_detection_examples :
   outcome (c_dammit (MBytes [99; 233]) no_args) = (Some [99; 233], Some n_windows1252, false) /\
   outcome (c_dammit (MBytes [99; 233; 129]) no_args) = (Some [99; 65533], Some n_utf8, true).
 Proof. vm_compute. repeat split; reflexivity. Qed.
+
+(* ======================================================================================================
+   What UnicodeDammit returns for the other common call shapes, on the concrete model (c_dammit: codecs, codec
+   names, declaration sniffing all computed in Coq), for EVERY non-empty byte string without a byte-order mark, in
+   closed form.  A candidate is (name, codec); [concrete_outcome cands b] (Model/Autodetect.v): the first candidate
+   that decodes b strictly, flag off; else the first candidate not spelled "ascii", decoded with errors="replace",
+   flag on; else nothing.  [decoder_names]: the lower-case names of Gen/T_Codecs.v that denote one of the eight
+   decoders; [named_candidates e k] = (e, k), utf-8, windows-1252 with each name once;
+   [default_candidates u w] = utf-8 unless u, windows-1252 unless w.
+   ====================================================================================================== *)
+From BS Require Import Model.Autodetect Proofs.DetectShapes.
+
+(* master statement: whenever the candidate list consists of names the code resolves to themselves and the model knows *)
+Theorem C07_concrete_detection : forall b a cands,
+  b <> [] -> fst (strip_bom b) <> [] ->
+  c_encodings (MBytes b) a = map fst cands -> Forall resolved cands ->
+  outcome (c_dammit (MBytes b) a) = concrete_outcome cands (fst (strip_bom b)).
+Proof. exact concrete_detection. Qed.
+Print Assumptions C07_concrete_detection.
+
+(* UnicodeDammit(data, known_definite_encodings=[e]), e any modelled name, nothing declared in the document *)
+Theorem C07_known_encoding_detection : forall b e k h,
+  In (e, k) decoder_names -> b <> [] -> strip_bom b = (b, None) ->
+  find_declared_encoding Encode.lower_ascii (MBytes b) h false = None ->
+  outcome (c_dammit (MBytes b) (mkargs [e] [] [] [] h)) = concrete_outcome (named_candidates e k) b.
+Proof. exact known_encoding_detection. Qed.
+Print Assumptions C07_known_encoding_detection.
+
+(* BeautifulSoup(data, from_encoding=e): what prepare_markup yields; ParserRejectedMarkup never, since utf-8 or
+   windows-1252 remains a candidate (see C07_concrete_outcome_no_text_iff) *)
+Theorem C07_from_encoding_detection : forall b e k,
+  In (e, k) decoder_names -> b <> [] -> strip_bom b = (b, None) ->
+  find_declared_encoding Encode.lower_ascii (MBytes b) true false = None ->
+  c_prepare_markup (MBytes b) (Some e) [] =
+  match concrete_outcome (named_candidates e k) b with
+  | (Some t, o, f) => Prepared t o None f
+  | (None, _, _) => Rejected
+  end.
+Proof. exact from_encoding_detection. Qed.
+Print Assumptions C07_from_encoding_detection.
+
+(* the document declares a modelled encoding (meta tag or XML declaration, as the modelled sniffer finds it) *)
+Theorem C07_declared_encoding_detection : forall b e k,
+  In (e, k) decoder_names -> b <> [] -> strip_bom b = (b, None) ->
+  find_declared_encoding Encode.lower_ascii (MBytes b) true false = Some e ->
+  outcome (c_dammit (MBytes b) no_args) = concrete_outcome (named_candidates e k) b /\
+  r_declared_html (c_dammit (MBytes b) no_args) = Some e.
+Proof. exact declared_encoding_detection. Qed.
+Print Assumptions C07_declared_encoding_detection.
+
+(* the document declares something the model does not know as a codec: tried, skipped, still reported *)
+Theorem C07_unknown_declared_encoding_detection : forall b d d',
+  b <> [] -> strip_bom b = (b, None) ->
+  find_declared_encoding Encode.lower_ascii (MBytes b) true false = Some d ->
+  find_codec Encode.lower_ascii c_known d = Some d' -> codec_of_name d' = None ->
+  Encode.lower_ascii d <> n_utf8 -> Encode.lower_ascii d <> n_windows1252 ->
+  outcome (c_dammit (MBytes b) no_args) = concrete_outcome (default_candidates false false) b /\
+  r_declared_html (c_dammit (MBytes b) no_args) = Some d.
+Proof. exact unknown_declared_encoding_detection. Qed.
+Print Assumptions C07_unknown_declared_encoding_detection.
+
+(* exclude_encodings only (any list X) *)
+Theorem C07_excluded_encodings_detection : forall b X h,
+  b <> [] -> strip_bom b = (b, None) ->
+  find_declared_encoding Encode.lower_ascii (MBytes b) h false = None ->
+  outcome (c_dammit (MBytes b) (mkargs [] [] [] X h)) =
+  concrete_outcome (default_candidates (excluded Encode.lower_ascii X n_utf8) (excluded Encode.lower_ascii X n_windows1252)) b.
+Proof. exact excluded_encodings_detection. Qed.
+Print Assumptions C07_excluded_encodings_detection.
+
+(* ... and then there is no text iff both last resorts are excluded *)
+Theorem C07_excluded_no_text_iff : forall b X h,
+  b <> [] -> strip_bom b = (b, None) -> find_declared_encoding Encode.lower_ascii (MBytes b) h false = None ->
+  (r_text (c_dammit (MBytes b) (mkargs [] [] [] X h)) = None <->
+   excluded Encode.lower_ascii X n_utf8 = true /\ excluded Encode.lower_ascii X n_windows1252 = true).
+Proof. exact excluded_no_text_iff. Qed.
+Print Assumptions C07_excluded_no_text_iff.
+
+(* reading the closed form, any candidate list, any byte string: when the flag is set, when there is no text *)
+Theorem C07_concrete_outcome_flag_iff : forall cands b,
+  snd (concrete_outcome cands b) = true <->
+  (forall n k, In (n, k) cands -> codec_decode k Strict b = None) /\
+  (exists n k, In (n, k) cands /\ n <> s_ascii).
+Proof. exact concrete_outcome_flag_iff. Qed.
+Print Assumptions C07_concrete_outcome_flag_iff.
+
+Theorem C07_concrete_outcome_no_text_iff : forall cands b,
+  fst (fst (concrete_outcome cands b)) = None <->
+  (forall n k, In (n, k) cands -> codec_decode k Strict b = None) /\
+  (forall n k, In (n, k) cands -> n = s_ascii).
+Proof. exact concrete_outcome_no_text_iff. Qed.
+Print Assumptions C07_concrete_outcome_no_text_iff.
+
+(* the candidate lists are what the shapes give, and every entry is resolved (table obligations over the names) *)
+Theorem C07_shape_candidates : 
+  (forall e k, In (e, k) decoder_names ->
+     spec_candidates Encode.lower_ascii [] [e; n_utf8; n_windows1252] = map fst (named_candidates e k) /\
+     Forall resolved (named_candidates e k)) /\
+  (forall X, spec_candidates Encode.lower_ascii X [n_utf8; n_windows1252] =
+             map fst (default_candidates (excluded Encode.lower_ascii X n_utf8) (excluded Encode.lower_ascii X n_windows1252))).
+Proof. exact (conj named_candidates_ok (fun X => proj1 (default_candidates_ok X))). Qed.
+Print Assumptions C07_shape_candidates.
+
+(* satisfiable, and the branches occur: latin-1 named (always decodes); ascii named on non-ASCII bytes falls through
+   to utf-8 / windows-1252 / utf-8 with replacement (the replace pass skips "ascii") *)
+Example C07_known_encoding_examples :
+  outcome (c_dammit (MBytes [99; 233; 129]) (mkargs [[108; 97; 116; 105; 110; 45; 49]] [] [] [] true))
+    = (Some [99; 233; 129], Some [108; 97; 116; 105; 110; 45; 49], false) /\
+  outcome (c_dammit (MBytes [99; 195; 169]) (mkargs [n_ascii] [] [] [] true)) = (Some [99; 233], Some n_utf8, false) /\
+  outcome (c_dammit (MBytes [99; 233]) (mkargs [n_ascii] [] [] [] true)) = (Some [99; 233], Some n_windows1252, false) /\
+  outcome (c_dammit (MBytes [99; 233; 129]) (mkargs [n_ascii] [] [] [] true)) = (Some [99; 65533], Some n_utf8, true) /\
+  outcome (c_dammit (MBytes [99; 233; 129]) (mkargs [] [] [] [n_utf8] true)) = (Some [99; 233; 65533], Some n_windows1252, true).
+Proof. vm_compute. repeat split; reflexivity. Qed.
